@@ -1,0 +1,224 @@
+//go:build verif
+
+// Contracts for the verification machinery in /verif (comment-only; never compiled into a binary).
+// Property C12: hierarchical cgroup rewrites never pass through an invalid hierarchy.
+// Decoders (strconv.ParseInt, cpuset.Parse, sysutil.ParseCPUCFSQuotaV2) are uninterpreted, see /verif/lib/C12.spec.
+
+package resourceexecutor
+
+//@ uses pkg/util/cpuset, pkg/koordlet/util/system, pkg/util/cache
+
+// ---- limits / protections: "max" and "-1" mean unlimited, everything else is a decimal int64 ----
+
+//@ spec func isUnl(s string) bool = s == sysutil.CgroupMaxSymbolStr || s == sysutil.CgroupUnlimitedSymbolStr
+//@ spec func limOK(s string) bool = isUnl(s) || c12_intOK(s, 10, 64)
+//@ spec func lim(s string) int64 = isUnl(s) ? math.MaxInt64 : c12_int(s, 10, 64)
+
+//@ func MergeConditionIfValueIsLarger [C12]
+//@   ensures #err: result2 == nil <==> (limOK(newValue) && limOK(oldValue))
+//@   ensures #need: result2 == nil ==> (result1 <==> lim(newValue) > lim(oldValue))
+//@   ensures #noneed-on-error: result2 != nil ==> !result1
+//@   ensures #merged: result0 == newValue
+//@   modifies nothing
+
+// ---- cpu.cfs_quota_us (v1: "-1" | number) / cpu.max (v2: "max 100000" | "50000 100000") ----
+
+//@ spec func isV2() bool = sysutil.GetCurrentCgroupVersion() == sysutil.CgroupVersionV2
+//@ spec func cfsOldOK(s string) bool = isV2() ? c12_cfsV2OK(s) : (s == sysutil.CgroupUnlimitedSymbolStr || c12_intOK(s, 10, 64))
+//@ spec func cfsOld(s string) int64 = isV2() ? (c12_cfsV2(s) == 0 - 1 ? math.MaxInt64 : c12_cfsV2(s)) : (s == sysutil.CgroupUnlimitedSymbolStr ? math.MaxInt64 : c12_int(s, 10, 64))
+
+//@ func MergeConditionIfCFSQuotaIsLarger [C12]
+//@   ensures #err: result2 == nil <==> (limOK(newValue) && cfsOldOK(oldValue))
+//@   ensures #need: result2 == nil ==> (result1 <==> lim(newValue) > cfsOld(oldValue))
+//@   ensures #noneed-on-error: result2 != nil ==> !result1
+//@   ensures #merged: result0 == newValue
+//@   modifies nothing
+
+// ---- cpuset.cpus ----
+
+//@ spec func cpusSubset(a string, b string) bool = forall c int :: c12_in(a, c) ==> c12_in(b, c)
+//@ spec func cpusInRange(a string) bool = forall c int :: c12_in(a, c) ==> c <= 4096
+
+//@ func MergeConditionIfCPUSetIsLooser [C12]
+//@   ensures #err: result2 == nil <==> (c12_cpusOK(newValue) && c12_cpusOK(oldValue))
+//@   ensures #need: result2 == nil ==> (result1 <==> !cpusSubset(newValue, oldValue))
+//@   ensures #noneed-on-error: result2 != nil ==> !result1
+//@   ensures #keep: !result1 ==> result0 == newValue
+//@   ensures #union: result1 && cpusInRange(newValue) && cpusInRange(oldValue) ==> c12_cpusOK(result0) && (forall c int :: c12_in(result0, c) <==> (c12_in(newValue, c) || c12_in(oldValue, c)))
+//@   modifies allelems(cpuset.scratchInts())
+
+// ---- updaters ----
+
+//@ spec func cgU(u ResourceUpdater) *CgroupResourceUpdater = payload(u, *CgroupResourceUpdater)
+//@ spec func isCgU(u ResourceUpdater) bool = typeis(u, *CgroupResourceUpdater) && cgU(u) != nil
+//@ spec func fileOf(c *CgroupResourceUpdater) *string = c12_fs(c.parentDir, c.file)
+
+//@ func (*CgroupResourceUpdater).Clone [C12]
+//@   requires u != nil
+//@   ensures #copy: isCgU(result) && fresh(cgU(result)) && cgU(result).value == u.value && cgU(result).parentDir == u.parentDir && cgU(result).file == u.file
+//@   modifies nothing
+
+// Interface dispatch of Clone: every implementation returns a fresh copy of the same dynamic type with the same value
+// and target file ((*CgroupResourceUpdater).Clone is verified against this above).
+//@ func (ResourceUpdater).Clone [C12]
+//@   ensures isCgU(recv) ==> isCgU(result) && fresh(cgU(result)) && cgU(result).value == cgU(recv).value && cgU(result).parentDir == cgU(recv).parentDir && cgU(result).file == cgU(recv).file
+//@   modifies nothing
+//@   option trusted
+
+//@ func (*CgroupResourceUpdater).Value [C12]
+//@   requires u != nil
+//@   ensures result == u.value
+//@   modifies nothing
+
+//@ func (*CgroupResourceUpdater).Key [C12]
+//@   requires u != nil
+//@   ensures result == u.file.Path(u.parentDir)
+//@   modifies nothing
+
+//@ func (*CgroupResourceUpdater).Path [C12]
+//@   requires u != nil
+//@   ensures result == u.file.Path(u.parentDir)
+//@   modifies nothing
+
+// Interface dispatch of the observers (the *CgroupResourceUpdater implementations are verified against them above).
+//@ func (ResourceUpdater).Value [C12]
+//@   ensures isCgU(recv) ==> result == cgU(recv).value
+//@   modifies nothing
+//@   option trusted
+//@ func (ResourceUpdater).Key [C12]
+//@   ensures isCgU(recv) ==> result == cgU(recv).file.Path(cgU(recv).parentDir)
+//@   modifies nothing
+//@   option trusted
+//@ func (ResourceUpdater).Path [C12]
+//@   ensures isCgU(recv) ==> result == cgU(recv).file.Path(cgU(recv).parentDir)
+//@   modifies nothing
+//@   option trusted
+
+// MergeFuncUpdateCgroup: top-down pass of the leveled update for one file. It writes the merged value iff the merge
+// condition asks for it and nothing else; the updater it returns is what the executor caches as "value now in the
+// file": when it merged, the merged value that was written; when it did not, the old content it read.
+// (mergeCondition is a function-typed parameter: the engine treats the call as arbitrary, results and heap; therefore
+// #carries-old is stated against the content at entry - nothing is written on that path - and #carries-merged /
+// #same-file against the final state.)
+//@ func MergeFuncUpdateCgroup [C12]
+//@   requires isCgU(resource)
+//@   ensures #once: calls("cgroupFileWrite") <= 1
+//@   ensures #write-or-skip: result1 == nil && calls("cgroupFileWrite") == 0 ==> calls("Clone") == 1
+//@   assert before call cgroupFileWrite: #write-merged: needMerge && $arg0 == c.parentDir && $arg1 == c.file && $arg2 == mergedValue
+//@   assert before call Clone#1: #skip-unmerged: !needMerge
+//@   ensures #same-file: result1 == nil ==> isCgU(result0) && fileOf(cgU(result0)) == fileOf(cgU(resource))
+//@   ensures #carries-old: result1 == nil && calls("cgroupFileWrite") == 0 ==> isCgU(result0) && cgU(result0).value == old(deref(fileOf(cgU(resource))))
+//@   ensures #carries-merged: result1 == nil && calls("cgroupFileWrite") == 1 ==> isCgU(result0) && cgU(result0).value == deref(fileOf(cgU(resource)))
+
+// ---- executor ----
+
+// Interface dispatch of the effectful updater methods (assumed for every implementation): they may rewrite cgroup
+// files (the abstract cells, allfields(string)) and fields of the receiver (CgroupUpdateWithUnlimitedFunc rewrites
+// c.value "-1" -> "max"); they touch no other Go object, in particular not the executor, its cache or the batch.
+//@ func (ResourceUpdater).MergeUpdate [C12]
+//@   ensures isCgU(recv) && result0 != nil ==> isCgU(result0)
+//@   modifies allfields(string), obj(cgU(recv))
+//@   option trusted
+//@ func (ResourceUpdater).update [C12]
+//@   modifies allfields(string), obj(cgU(recv))
+//@   option trusted
+//@ func (ResourceUpdater).UpdateLastUpdateTimestamp [C12]
+//@   modifies cgU(recv).lastUpdateTimestamp
+//@   option trusted
+//@ func (ResourceUpdater).GetLastUpdateTimestamp [C12]
+//@   modifies nothing
+//@   option trusted
+
+//@ spec func keyOf(u ResourceUpdater) string = cgU(u).file.Path(cgU(u).parentDir)
+//@ spec func cachedObj(e *ResourceUpdateExecutorImpl, k string) ResourceUpdater = e.ResourceCache.items[k].object
+
+// needUpdate: an updater is skipped only if the cache holds an entry for its key carrying the same value (a cached
+// entry can additionally be expired or older than the force-update period, which depends on the clock).
+//@ func (*ResourceUpdateExecutorImpl).needUpdate [C12]
+//@   requires e != nil && e.ResourceCache != nil && e.Config != nil && isCgU(updater)
+//@   ensures #never-cached: !has(e.ResourceCache.items, keyOf(updater)) ==> result
+//@   ensures #skip-only-unchanged: !result ==> has(e.ResourceCache.items, keyOf(updater)) && (isCgU(cachedObj(e, keyOf(updater))) ==> cgU(cachedObj(e, keyOf(updater))).value == cgU(updater).value)
+//@   modifies nothing
+//@   option inline Get
+
+// LeveledUpdateBatch. updaters[k] is the batch of cgroup depth k (all three callers build the batches with the cgroup
+// updater factory, hence isCgU). The order of the visits is pinned with a clock: every visit of an updater (in either
+// pass) calls needUpdate exactly once, so calls("needUpdate") counts the visits. lvlStart(updaters, k) is the number of
+// updaters in the levels < k (a definitional ghost: the two "requires" on it are its recursive definition, they do not
+// restrict the input). Pass 1 (MergeUpdate) visits position n = lvlStart(k) + j at clock n + 1, i.e. level-major
+// ASCENDING; pass 2 (update) visits level k after all levels > k, i.e. DESCENDING by level.
+//@ spec func lvlStart(us [][]ResourceUpdater, k int) int
+//@ spec func total(us [][]ResourceUpdater) int = lvlStart(us, len(us))
+
+//@ func (*ResourceUpdateExecutorImpl).LeveledUpdateBatch [C12]
+//@   requires e != nil && e.ResourceCache != nil && e.ResourceCache.items != nil && e.Config != nil
+//@   requires forall k int, j int :: 0 <= k && k < len(updaters) && 0 <= j && j < len(updaters[k]) ==> isCgU(updaters[k][j])
+//@   requires lvlStart(updaters, 0) == 0 && (forall k int :: {lvlStart(updaters, k)} 0 <= k && k <= len(updaters) ==> lvlStart(updaters, k) >= 0)
+//@   requires forall k int :: {lvlStart(updaters, k)} 0 <= k && k < len(updaters) ==> lvlStart(updaters, k + 1) == lvlStart(updaters, k) + len(updaters[k])
+//@   assert before call MergeUpdate: #merges-first: calls("update") == 0
+//@   assert before call MergeUpdate: #merge-ascending: 0 <= i && i < len(updaters) && 0 <= calls("needUpdate") - 1 - lvlStart(updaters, i) && calls("needUpdate") - 1 - lvlStart(updaters, i) < len(updaters[i]) && $recv == updaters[i][calls("needUpdate") - 1 - lvlStart(updaters, i)]
+//@   assert before call update: #update-descending: 0 <= i && i < len(updaters) && 0 <= calls("needUpdate") - 1 - (2 * total(updaters) - lvlStart(updaters, i + 1)) && calls("needUpdate") - 1 - (2 * total(updaters) - lvlStart(updaters, i + 1)) < len(updaters[i]) && $recv == updaters[i][calls("needUpdate") - 1 - (2 * total(updaters) - lvlStart(updaters, i + 1))]
+//@   assert before call UpdateLastUpdateTimestamp: #optout-recorded: calls("update") == 0 ==> (mergedUpdater == nil ==> skipMerge[keyOf(updater)]) && (mergedUpdater != nil ==> updater == mergedUpdater)
+//@   assert before call update: #no-second-write-after-optout: !skipMerge[keyOf($recv)]
+//@   ensures #visits: e.gcStarted ==> calls("needUpdate") == 2 * total(updaters)
+//@   ensures #bounded: calls("MergeUpdate") <= total(updaters) && calls("update") <= total(updaters)
+//@   loop 1 invariant 0 <= i && i <= len(updaters) && calls("needUpdate") == lvlStart(updaters, i) && calls("update") == 0 && calls("MergeUpdate") <= calls("needUpdate")
+//@   loop 2 invariant 0 <= i && i < len(updaters) && 0 <= $i && $i <= len(updaters[i]) && calls("needUpdate") == lvlStart(updaters, i) + $i && calls("update") == 0 && calls("MergeUpdate") <= calls("needUpdate")
+//@   loop 3 invariant 0 - 1 <= i && i < len(updaters) && calls("needUpdate") == 2 * total(updaters) - lvlStart(updaters, i + 1) && calls("MergeUpdate") <= total(updaters) && 0 <= calls("update") && calls("update") <= calls("needUpdate") - total(updaters)
+//@   loop 4 invariant 0 <= i && i < len(updaters) && 0 <= $i && $i <= len(updaters[i]) && calls("needUpdate") == 2 * total(updaters) - lvlStart(updaters, i + 1) + $i && calls("MergeUpdate") <= total(updaters) && 0 <= calls("update") && calls("update") <= calls("needUpdate") - total(updaters)
+
+// ---- exact (bottom-up) write of one file ----
+
+// cgroupFileWriteIfDifferent is what update() of the cgroup updaters ends in. A file whose content already equals the
+// target is not rewritten; at most one write, of exactly the target value to exactly this file; after success the file
+// holds the target (or, for cpuset.cpus, a content that cpuset.Equals accepts as the same set - the contract of Equals
+// gives the inclusion content <= target - or "max" when the target is MaxInt64).
+//@ func cgroupFileWriteIfDifferent [C12]
+//@   assert before call cgroupFileWrite: #once: calls("cgroupFileWrite") == 1
+//@   assert before call cgroupFileWrite: #target-to-this-file: $arg0 == cgroupTaskDir && $arg1 == r && $arg2 == value
+//@   assert before call cgroupFileWrite: #only-if-different: deref(c12_fs(cgroupTaskDir, r)) != value
+//@   ensures #updated: result0 ==> result1 == nil && deref(c12_fs(cgroupTaskDir, r)) == value && old(deref(c12_fs(cgroupTaskDir, r))) != value
+//@   ensures #not-updated: !result0 ==> deref(c12_fs(cgroupTaskDir, r)) == old(deref(c12_fs(cgroupTaskDir, r)))
+//@   ensures #holds-target: result1 == nil ==> holdsTarget(cgroupTaskDir, r, value)
+//@   modifies obj(c12_fs(cgroupTaskDir, r)), allelems(cpuset.scratchInts())
+//@   option inline IsCgroupPathExist PathExists IsEqualStrCpus ResourceCgroupDirErr ResourceUnsupportedErr
+
+//@ spec func holdsTarget(dir string, r sysutil.Resource, value string) bool = deref(c12_fs(dir, r)) == value || (value == CgroupMaxValueStr && deref(c12_fs(dir, r)) == CgroupMaxSymbolStr) || (r.ResourceType() == sysutil.CPUSetCPUSName && c12_cpusOK(value) && c12_cpusOK(deref(c12_fs(dir, r))) && cpusSubset(deref(c12_fs(dir, r)), value))
+
+// update() of a plain cgroup updater (CommonCgroupUpdateFunc): the updater's own file ends up holding the updater's
+// value; a file that already holds it is left alone; no other file and no field of the updater changes.
+//@ func cgroupWriteIfDifferentWithLog [C12]
+//@   requires c != nil
+//@   ensures #holds-target: result == nil ==> holdsTarget(c.parentDir, c.file, c.value)
+//@   ensures #unchanged-left-alone: old(deref(fileOf(c))) == c.value ==> deref(fileOf(c)) == old(deref(fileOf(c)))
+//@   modifies obj(fileOf(c)), allelems(cpuset.scratchInts())
+
+//@ func CommonCgroupUpdateFunc [C12]
+//@   requires isCgU(resource)
+//@   ensures #holds-target: result == nil ==> holdsTarget(cgU(resource).parentDir, cgU(resource).file, cgU(resource).value)
+//@   ensures #unchanged-left-alone: old(deref(fileOf(cgU(resource)))) == cgU(resource).value ==> deref(fileOf(cgU(resource))) == old(deref(fileOf(cgU(resource))))
+//@   modifies obj(fileOf(cgU(resource))), allelems(cpuset.scratchInts())
+
+// update() of cpu.cfs_quota_us / memory.limit updaters: "-1" is rewritten to "max" on cgroup v2 first (so the value the
+// executor later caches is the spelling that was written), then as above.
+//@ func CgroupUpdateWithUnlimitedFunc [C12]
+//@   requires isCgU(resource)
+//@   ensures #spelling: cgU(resource).value == (old(cgU(resource).value) == sysutil.CgroupUnlimitedSymbolStr && isV2() ? sysutil.CgroupMaxSymbolStr : old(cgU(resource).value))
+//@   ensures #holds-target: result == nil ==> holdsTarget(cgU(resource).parentDir, cgU(resource).file, cgU(resource).value)
+//@   modifies cgU(resource).value, obj(c12_fs(cgU(resource).parentDir, cgU(resource).file)), allelems(cpuset.scratchInts())
+
+// ---- why the order is safe (no code): one parent/child edge of the cgroup tree ----
+// po/co are the contents before the rewrite, pt/ct the targets; the hierarchy is valid before (child <= parent) and at
+// the target. LeveledUpdateBatch performs, for this edge, the four writes in the order pinned above: merge(parent),
+// merge(child) (ascending levels, both before any exact write), exact(child), exact(parent) (descending levels). A merge
+// leaves "old union new" (cpusets: MergeConditionIfCPUSetIsLooser#union / no write when new <= old) resp. max(old, new)
+// (limits: MergeConditionIfValueIsLarger / IfCFSQuotaIsLarger #need + #merged). After each single write the child is
+// still contained in / not larger than the parent, so every crash point leaves a hierarchy the kernel accepts.
+//@ spec func lemPO(c int) bool
+//@ spec func lemCO(c int) bool
+//@ spec func lemPT(c int) bool
+//@ spec func lemCT(c int) bool
+//@ lemma edge_cpuset_prefixes_valid: (forall c int :: lemCO(c) ==> lemPO(c)) && (forall c int :: lemCT(c) ==> lemPT(c)) ==> (forall c int :: lemCO(c) ==> (lemPO(c) || lemPT(c))) && (forall c int :: (lemCO(c) || lemCT(c)) ==> (lemPO(c) || lemPT(c))) && (forall c int :: lemCT(c) ==> (lemPO(c) || lemPT(c))) && (forall c int :: lemCT(c) ==> lemPT(c)) [C12]
+//@ lemma edge_limit_prefixes_valid: forall po int, co int, pt int, ct int :: co <= po && ct <= pt ==> co <= max(po, pt) && max(co, ct) <= max(po, pt) && ct <= max(po, pt) && ct <= pt [C12]
+// The reverse order is NOT safe (sanity of the statement): exact(parent) first can cut the parent below the child.
+//@ lemma edge_limit_wrong_order_unsafe: exists po int, co int, pt int, ct int :: co <= po && ct <= pt && !(co <= pt) [C12]
